@@ -790,5 +790,9 @@ PROPS["C17"]["explanation"] += " (VERFLAG) a routine that stores the file record
 PROPS["C09"]["rules"] = PROPS["C09"]["rules"] + [rules_gr.rule_existence_through_open_aid]
 PROPS["C09"]["explanation"] += " (OPENLEN) whether an image has data is decided with the open access element's length when there is one, not with the length recorded in the file."
 
+for _p in ("C02", "C04"):
+    PROPS[_p]["rules"] = PROPS[_p]["rules"] + [rules_cache.rule_chunk_coord_in_grid]
+    PROPS[_p]["explanation"] += " (GRIDBOUND) a caller-supplied chunk coordinate vector is compared with num_chunks before a chunk number is computed from it."
+
 NOT_APPLICABLE = {}
 
